@@ -187,6 +187,44 @@ def w_joiners(ops, rng, n):
         op_a(ops, s + '.\u05d0')
 
 
+# UTS #46 IdnaMappingTable, status "ignored" (Unicode 15 / 16): every code point of it
+IGNORED = [0xAD, 0x34F, 0x180B, 0x180C, 0x180D, 0x180F, 0x200B, 0x2060, 0x2064, 0xFEFF] + list(range(0xFE00, 0xFE10)) + \
+    list(range(0x1BCA0, 0x1BCA4)) + list(range(0xE0100, 0xE01F0))
+
+
+def w_ignored_folded(ops, rng, n):
+    """C16: a domain and the same domain with ONE ignored code point inserted (every ignored code point of the mapping
+    table, three hosts, start / middle / end), with one ASCII letter / digit / hyphen replaced by its full-width form
+    (all of them), or with a dot replaced by each ideographic full stop, convert to the same ASCII domain"""
+    hosts = ['ab', 'caf\u00e9.example', '\u845b\u57ce.jp']
+    for cp in IGNORED:
+        for h in hosts:
+            for pos in (0, 1, len(h)):
+                op_q(ops, h[:pos] + chr(cp) + h[pos:], h)
+    for c in 'abcdefghijklmnopqrstuvwxyzABCDEFGHIJKLMNOPQRSTUVWXYZ0123456789-':
+        fw = chr(ord(c) - 0x21 + 0xFF01)
+        for h in ('b%sd.example', '\u00e9%s.com', '%s'):
+            if h == '%s' and c == '-':
+                continue
+            op_q(ops, h % fw, h % c)
+    for dot in '\u3002\uff0e\uff61':
+        for h in ('a%sb', 'caf\u00e9%scom', 'a%sb%sc'):
+            op_q(ops, h.replace('%s', dot), h.replace('%s', '.'))
+
+
+def w_decomposable_sweep(ops, rng, n):
+    """C16 / C02: EVERY code point that has a canonical decomposition (all 11172 Hangul syllables and the ~2000 others
+    known to this Python's unicodedata; canonical decompositions are frozen by the Unicode stability policy), next to a
+    sibling label that is not NFC (so that the normaliser really runs on the whole domain), against its decomposed
+    spelling next to the composed sibling.  n > 0 samples n of them (seeded)."""
+    cps = [cp for cp in range(0xA0, 0x30000) if not (0xD800 <= cp <= 0xDFFF) and ud.normalize('NFD', chr(cp)) != chr(cp)]
+    if n and n < len(cps):
+        cps = sorted(rng.sample(cps, n))
+    for cp in cps:
+        c = chr(cp)
+        op_q(ops, 'e\u0301.x' + c, '\u00e9.x' + ud.normalize('NFD', c))
+
+
 def w_structured(ops, rng, n):
     for s in structured_strings():
         op_a(ops, s)
